@@ -3,6 +3,8 @@ import CJ.Gen.PrefixTable
 import CJ.Gen.Obfs4Consts
 import CJ.Props.C08
 import CJ.Gen.ExpiryShape
+import CJ.Model.TimeoutKey
+import CJ.Gen.TimeoutKey
 /-!
 # C02 — only proof of a validated registration's secret on that phantom opens a tunnel
 
@@ -291,6 +293,81 @@ example : ∀ r ∈ views (sweep C08.cfg0 700 (xrun C08.cfg0 ([.base (.register 
 example : ∀ r ∈ views (xstep C08.cfg0 xinit (.trackObj ("10.0.0.1", "a") 0 5 true)).1.b.st "10.0.0.1"
     (fun _ => (none, 0)), r.ident ≠ "a" :=
   redelivered_object_invisible C08.cfg0 xinit "10.0.0.1" "a" 0 5 true _ (by decide) (by simp [xinit])
+
+/-! ## a registration that carried tunnels; identifiers with any bytes -/
+
+/-- **Having carried tunnels keeps no registration alive**: take any (extended) history — connections,
+tunnels that were opened on registrations (`Proxy` entered: the registration's tunnel count is > 0 from
+then on), tunnels that finished or are still open, duplicates, interrupted sweeps. If the record the
+registration `(p, i)` has in the history WITH ALL TUNNEL OPERATIONS ERASED fails the age rule at `now`,
+then after the sweep at `now` of the real history no transport is shown the registration: its genuine
+first flight, replayed, opens no tunnel. -/
+theorem tunnel_use_does_not_keep (c : Cfg) (xops : List XOp) (p i : String) (t : TO) (now : Nat) (info)
+    (ht : (xrun c (xops.filter fun o => !o.isTunnel)).b.st.timeouts[(p, i)]? = some t)
+    (hexp : ¬ C08.alive c now t) :
+    ∀ r ∈ views (sweep c now (xrun c xops).b.st).1 p info, r.ident ≠ i := by
+  rw [(C08.tunnels_have_no_say c xops).1] at ht
+  have hr' := C08.x_reach c xops
+  have hnt : (sweep c now (xrun c xops).b.st).1.decoys.contains (p, i) = false := by
+    cases hc : (sweep c now (xrun c xops).b.st).1.decoys.contains (p, i) with
+    | false => rfl
+    | true =>
+      obtain ⟨t', _, h2, ha⟩ := (C08.sweep_exact c _ hr' now (p, i)).mp hc
+      rw [ht] at h2; cases h2
+      exact absurd ha hexp
+  exact not_tracked_here_invisible _ p i info hnt
+
+/-- non-vacuity: registered at 0, a tunnel opened on it (still open), swept at 700 s — not visible -/
+example : ∀ r ∈ views (sweep C08.cfg0 700 (xrun C08.cfg0 [.base (.register ("10.0.0.1", "a") 0 0),
+    .tunnel ("10.0.0.1", "a")]).b.st).1 "10.0.0.1" (fun _ => (none, 0)), r.ident ≠ "a" :=
+  tunnel_use_does_not_keep C08.cfg0 _ "10.0.0.1" "a" ⟨0, false⟩ 700 _
+    (by simp [xrun, xstep, bstep, register, C08.cfg0, xinit, XOp.isTunnel])
+    (by unfold C08.alive; simp [C08.cfg0])
+
+open CJ.TimeoutKey in
+/-- cutting a key at its first separator gives back the pair it was built from, whatever bytes the
+identifier holds, as long as the phantom address is free of the separator -/
+theorem splitFirst_timeoutIndex (p i : List Nat) (h : sep ∉ p) : splitFirst (timeoutIndex p i) = (p, i) := by
+  induction p with
+  | nil => simp [timeoutIndex, splitFirst]
+  | cons b r ih =>
+    have hb : b ≠ sep := fun e => h (by rw [e]; exact List.mem_cons_self)
+    have hr : sep ∉ r := fun m => h (List.mem_cons_of_mem _ m)
+    have ih' := ih hr
+    simp only [timeoutIndex] at ih'
+    simp [timeoutIndex, splitFirst, hb, ih']
+
+open CJ.TimeoutKey in
+/-- **The string key stands for the pair**: for phantom addresses free of the separator, two registrations
+share a timeout key only if they share phantom AND identifier — for identifiers of any bytes, the separator
+included. This is what lets the registry model key its maps by pairs. -/
+theorem timeoutIndex_injective (p p' i i' : List Nat) (h : sep ∉ p) (h' : sep ∉ p')
+    (e : timeoutIndex p i = timeoutIndex p' i') : p = p' ∧ i = i' := by
+  have := congrArg splitFirst e
+  rw [splitFirst_timeoutIndex _ _ h, splitFirst_timeoutIndex _ _ h'] at this
+  exact Prod.mk.inj this
+
+open CJ.TimeoutKey in
+/-- cutting at the LAST separator is no inverse: an identifier that holds the separator is torn apart -/
+example : splitLast (timeoutIndex [49] [2, sep, 3]) = ([49, sep, 2], [3]) := by decide
+
+/-- the code's key function has the modelled shape (regenerated go/ast fact) -/
+theorem timeout_key_shape :
+    CJ.Gen.timeoutIndexOperands = ["param:0", "lit:|", "param:1"] ∧
+    "|".toList.map Char.toNat = [CJ.TimeoutKey.sep] := by decide
+
+/-- **Nothing takes a key apart**: `removeRegistration` reaches the registration through the pair stored in
+the record it found under the key (`<record>.decoy`, `<record>.identifier`), `track` fills that pair from
+the very values it builds the key and the `decoys` entry from, and `removeRegistration` calls nothing but
+the lock, `isExpired`, `delete`, `len`, conversions and the statistics (regenerated go/ast facts). -/
+theorem removal_goes_by_the_record :
+    CJ.Gen.removalDecoysKeys =
+      ["inner:" ++ CJ.Gen.removalRecordVar ++ ".identifier", "outer:" ++ CJ.Gen.removalRecordVar ++ ".decoy"] ∧
+    CJ.Gen.recordKeyFieldInits = [("decoy", "phantomAddr"), ("identifier", "identifier")] ∧
+    CJ.Gen.trackKeyUses = ["key:timeoutIndex(phantomAddr, identifier)", "store:phantomAddr,identifier"] ∧
+    CJ.Gen.removalCalls = ["Stat", "Stat().ExpireReg", "delete", "expiredRegObj.PhantomIp.To4",
+      "expiredRegObj.RegistrationSource.String", "expiredRegObj.Transport.String", "int64", "len",
+      "r.isExpired", "r.m.Lock", "r.m.Unlock", "time.Since", "uint"] := by decide
 
 /-- the `Valid` flag — what makes a registration visible to connections — is cleared by `track` and set
 by `register`, and written nowhere else in the package (regenerated go/ast fact): whatever flag a
